@@ -190,6 +190,20 @@ def signingRunStore (self : Peer) (st : PartyStore) (subset : List Peer) : Party
 def storedAtEnd (_oldKeyPeers : List Peer) (newThreshold : Int) (peerstore : List Peer) : Int × List Peer :=
   (newThreshold, peerstore)
 
+/-! ### the coordinator collecting `ready` answers (`tss/coordinator.go initiate`, with `Signing.Ready`) -/
+
+/-- answers are taken one by one; one from an excluded relayer, or from a relayer that is ALREADY in the list, is ignored;
+    after each the process is asked whether it is ready; the list at that moment is what the signing subset is picked from -/
+def initiateFrom (kp : List Peer) (thr : Int) (excluded : List Peer) : List Peer → List Peer → Option (List Peer)
+  | _, [] => none
+  | acc, w :: ws =>
+    let acc' := if !excluded.contains w && !acc.contains w then acc ++ [w] else acc
+    if ready kp thr acc' then some acc' else initiateFrom kp thr excluded acc' ws
+
+/-- the coordinator itself is ready from the start -/
+def initiate (self : Peer) (kp : List Peer) (thr : Int) (excluded answers : List Peer) : Option (List Peer) :=
+  initiateFrom kp thr excluded [self] answers
+
 /-! ### Bitcoin: collecting the per-input signatures and attaching them (`watchExecution`, `sendTx`) -/
 
 /-- outcome of the collection loop over a finite list of arrivals -/
